@@ -9,13 +9,15 @@
 
     A [Get] is a state machine, one atomic step per round trip (together with the caller's handling of the
     reply), per loader call, per wake-up:
-       GSRead  -register key, cached GET key->  value: return it | placeholder: GSProbe | nil: GSKeep (or return)
+       GSRead  -cached GET key->                value: return it | placeholder: GSProbe | nil: GSKeep (or return)
        GSKeep  -keepalive->                      GSLock id
        GSLock  -SET key id NX GET PX->           nil: GSLoad | existing value: as after GSRead
        GSLoad  -fn returns->                     GSStore id v | GSUnlock (error)
        GSStore -setkey script->                  done (v)      | GSUnlock (error)
        GSUnlock -delkey script->                 done (error)
-       GSProbe -register ph, cached GET ph->     nil: GSRelease | alive: GSWait
+       GSProbe -cached GET ph->                  nil: GSRelease | alive: GSWait
+    (the channel of the key is registered when the Get enters GSRead, the channel of the placeholder when it
+    enters GSProbe: both BEFORE the read whose result they guard)
        GSRelease -delkey(key, ph)->              GSRead
        GSWait  -a registered channel is closed-> GSRead        | context done: done (error)
     Ghost state (not in the code): [a_loaded] = every (key, value) a loader produced, [a_ext] = every value
@@ -185,6 +187,15 @@ Definition close_all_waits (c : nat) (g : get) : get :=
 (** what Get does with a value it read for its key (from the cached GET or from SET NX GET) *)
 Definition after_value (v : bytes) : gstate := if is_ph v then GSProbe v else GSDone (ROk v).
 
+(** … entering GSProbe registers the placeholder's channel ([ph := c.register(val)]); entering GSRead
+    registers the key's channel ([wait := c.register(key)] at the top of the retry loop) *)
+Definition enter (g : get) (s : gstate) : get :=
+  match s with
+  | GSProbe _ => set_st (set_flags g (g_wait_closed g) false) s
+  | GSRead => set_st (set_flags g false (g_ph_closed g)) s
+  | _ => set_st g s
+  end.
+
 Inductive alabel :=
 | ANewClient
 | AStartGet (c : nat) (key : bytes) (ttl : Z) (fn : bool)
@@ -199,11 +210,11 @@ Inductive alabel :=
 | AWake (g : nat)                            (* a channel the Get waits on is closed: retry *)
 | ACtx (g : nat)                             (* the Get's context is done while it waits *)
 | AInval (c : nat) (ks : list bytes)         (* invalidations delivered to client c *)
-| ADel (key : bytes)                         (* DEL key (CacheAsideClient.Del or anybody) *)
+| ADel (key : bytes)                         (* DEL key: CacheAsideClient.Del, anybody else, or a client deleting its id *)
 | ASet (key v : bytes) (ttl : Z)             (* another application writes the key *)
 | ATick (dt : Z)
-| AClose (c : nat)                           (* Close(): DEL id *)
-| ALost (c : nat)                            (* onInvalidation(nil): id forgotten and deleted, every wait closed, cache flushed *)
+| AClose (c : nat)                           (* Close(): the client context is cancelled (the DEL of its id is an ADel) *)
+| ALost (c : nat)                            (* onInvalidation(nil): id forgotten (its DEL is an ADel), every wait closed, cache flushed *)
 | ARefresh (c : nat).                        (* refresh goroutine: SET id "" PX ClientTTL *)
 
 (** observation of a step by its caller *)
@@ -264,7 +275,7 @@ Section Step.
       | Some g =>
         match g_st g, nth_error (a_cls s) (g_cl g) with
         | GSRead, Some cl =>
-          let g0 := set_flags g false (g_ph_closed g) in     (* wait := c.register(key) *)
+          let g0 := g in
           if fail then Some (with_get s gi (set_st g0 (GSDone (RErr [] ENet))), ODone (RErr [] ENet))
           else match cached_read s (g_cl g) cl (g_key g) hit with
                | None => None
@@ -273,7 +284,7 @@ Section Step.
                             | Some x => after_value x
                             | None => if g_fn g then GSKeep else GSDone (RErr [] ENil)
                             end in
-                 Some (with_get s1 gi (set_st (set_flags g0 stale (g_ph_closed g0)) st'), OVal v)
+                 Some (with_get s1 gi (enter (set_flags g0 (g_wait_closed g0 || stale) (g_ph_closed g0)) st'), OVal v)
                end
         | _, _ => None
         end
@@ -313,7 +324,7 @@ Section Step.
               Some (with_get {| a_now := a_now s1; a_store := a_store s1; a_track := a_track s1; a_infl := a_infl s1;
                                 a_cls := a_cls s1; a_gets := a_gets s1; a_loaded := a_loaded s1; a_ext := a_ext s1;
                                 a_lock := (g_key g, gi) :: a_lock s1 |} gi (set_st g (GSLoad id)), OVal None)
-            | Some x => Some (with_get s gi (set_st g (after_value x)), OVal (Some x))
+            | Some x => Some (with_get s gi (enter g (after_value x)), OVal (Some x))
             end
         | _ => None
         end
@@ -346,7 +357,7 @@ Section Step.
                        a_gets := a_gets s1; a_loaded := a_loaded s1; a_ext := a_ext s1;
                        a_lock := filter (fun e => negb (Nat.eqb (snd e) gi)) (a_lock s1) |} in
           if executed && replied
-          then Some (with_get s2 gi (set_st g (after_value v)), OBool ok)   (* err == nil even when the script answers 0 *)
+          then Some (with_get s2 gi (enter g (after_value v)), OBool ok)   (* err == nil even when the script answers 0 *)
           else Some (with_get s1 gi (set_st g (GSUnlock id v ENet)), OBool ok)
         | _ => None
         end
@@ -372,12 +383,12 @@ Section Step.
       | Some g =>
         match g_st g, nth_error (a_cls s) (g_cl g) with
         | GSProbe ph, Some cl =>
-          let g0 := set_flags g (g_wait_closed g) false in    (* ph := c.register(val) *)
+          let g0 := g in
           if fail then Some (with_get s gi (set_st g0 (GSDone (RErr [] ENet))), ODone (RErr [] ENet))
           else match cached_read s (g_cl g) cl ph hit with
                | None => None
                | Some (v, s1, stale) =>
-                 Some (with_get s1 gi (set_st (set_flags g0 (g_wait_closed g0) stale)
+                 Some (with_get s1 gi (set_st (set_flags g0 (g_wait_closed g0) (g_ph_closed g0 || stale))
                                                (match v with None => GSRelease ph | Some _ => GSWait ph end)), OVal v)
                end
         | _, _ => None
@@ -391,7 +402,7 @@ Section Step.
         | GSRelease ph =>
           let '(st', ok) := if executed then srv_delkey (a_store s) (g_key g) ph else (a_store s, false) in
           let s1 := if ok then write s st' (g_key g) true else s in
-          Some (with_get s1 gi (set_st g GSRead), OBool ok)
+          Some (with_get s1 gi (enter g GSRead), OBool ok)
         | _ => None
         end
       | None => None
@@ -400,7 +411,7 @@ Section Step.
       match nth_error (a_gets s) gi with
       | Some g =>
         match g_st g with
-        | GSWait _ => if g_wait_closed g || g_ph_closed g then Some (with_get s gi (set_st g GSRead), ONone) else None
+        | GSWait _ => if g_wait_closed g || g_ph_closed g then Some (with_get s gi (enter g GSRead), ONone) else None
         | _ => None
         end
       | None => None
@@ -445,38 +456,24 @@ Section Step.
       Some ({| a_now := now; a_store := st'; a_track := tr; a_infl := infl; a_cls := a_cls s; a_gets := a_gets s;
                a_loaded := a_loaded s; a_ext := a_ext s;
                a_lock := filter (fun e => negb (mem_key (fst e) gone)) (a_lock s) |}, ONone)
-    | AClose c =>
+    | AClose c =>      (* Close(): the client context is cancelled; its DEL of the id is a separate [ADel] *)
       match nth_error (a_cls s) c with
       | Some cl =>
-        let s1 := match cl_id cl with
-                  | Some id => match sget (a_store s) id with
-                               | Some _ => write s (sdel (a_store s) id) id false
-                               | None => s
-                               end
-                  | None => s
-                  end in
         let cl' := {| cl_id := cl_id cl; cl_closed := true; cl_cache := cl_cache cl; cl_prev := cl_prev cl |} in
-        Some ({| a_now := a_now s1; a_store := a_store s1; a_track := a_track s1; a_infl := a_infl s1;
-                 a_cls := upd c cl' (a_cls s1); a_gets := a_gets s1; a_loaded := a_loaded s1; a_ext := a_ext s1;
-                 a_lock := a_lock s1 |}, ONone)
+        Some ({| a_now := a_now s; a_store := a_store s; a_track := a_track s; a_infl := a_infl s;
+                 a_cls := upd c cl' (a_cls s); a_gets := a_gets s; a_loaded := a_loaded s; a_ext := a_ext s;
+                 a_lock := a_lock s |}, ONone)
       | None => None
       end
-    | ALost c =>
+    | ALost c =>       (* onInvalidation(nil): the id is forgotten (its DEL is a separate [ADel]), every wait closed *)
       match nth_error (a_cls s) c with
       | Some cl =>
-        let s1 := match cl_id cl with
-                  | Some id => match sget (a_store s) id with
-                               | Some _ => write s (sdel (a_store s) id) id false
-                               | None => s
-                               end
-                  | None => s
-                  end in
         let cl' := {| cl_id := None; cl_closed := cl_closed cl; cl_cache := []; cl_prev := [] |} in
-        Some ({| a_now := a_now s1; a_store := a_store s1;
-                 a_track := filter (fun e => negb (Nat.eqb (fst e) c)) (a_track s1);
-                 a_infl := filter (fun e => negb (Nat.eqb (fst e) c)) (a_infl s1);
-                 a_cls := upd c cl' (a_cls s1); a_gets := map (close_all_waits c) (a_gets s1);
-                 a_loaded := a_loaded s1; a_ext := a_ext s1; a_lock := a_lock s1 |}, ONone)
+        Some ({| a_now := a_now s; a_store := a_store s;
+                 a_track := filter (fun e => negb (Nat.eqb (fst e) c)) (a_track s);
+                 a_infl := filter (fun e => negb (Nat.eqb (fst e) c)) (a_infl s);
+                 a_cls := upd c cl' (a_cls s); a_gets := map (close_all_waits c) (a_gets s);
+                 a_loaded := a_loaded s; a_ext := a_ext s; a_lock := a_lock s |}, ONone)
       | None => None
       end
     | ARefresh c =>
